@@ -187,6 +187,10 @@ fn residual(br: &mut Br, block: usize, order: usize, v: &mut Vec<String>) -> Res
         v.push(format!("first partition ({plen}) shorter than predictor order {order}"));
         return Err("first partition shorter than order".into());
     }
+    if po > 0 && plen == order {
+        // RFC 9639 9.2.7: (block size >> partition order) MUST be larger than the predictor order
+        v.push(format!("first partition is empty: block size >> partition order = {plen} is not larger than the predictor order {order}"));
+    }
     let mut params = vec![];
     let mut escaped = vec![];
     let mut res = Vec::with_capacity(block - order);
